@@ -321,13 +321,14 @@ STRING_PASSTHROUGH = {'str', 'join', 'format', 'sorted', 'list', 'tuple', 'map',
                       'dirname', 'normpath', 'lower', 'upper', 'strip', 'rstrip', 'lstrip', 'keys', 'values',
                       'items', 'get', 'NoCaseMultiDict', 'dict', 'copy', 'encode', 'decode', 'basename', 'split',
                       'splitext', 'reversed', 'set', 'iter', 'next', 'zip', 'enumerate', 'pop', 'title', 'text_type',
-                      'unquote', 'quote', 'replace'}
+                      'unquote', 'quote', 'replace', 'escape', 'glob'}
 
 
 class Prov:
     """provenance(expr) -> set of labels CONST CONFIG NUM HASH REQ:* SAN:* BUILDER:* PARAM:* CALL:* UNKNOWN:*"""
 
-    def __init__(self, fnnode, contracts=None, summaries=None, sanitizers=(), self_attrs=None):
+    def __init__(self, fnnode, contracts=None, summaries=None, sanitizers=(), self_attrs=None, repo=None, mod=None):
+        self.repo, self.mod = repo, mod
         self.contracts = contracts or {}
         self.summaries = summaries or {}
         self.sanitizers = set(sanitizers)
@@ -373,6 +374,21 @@ class Prov:
                 return out
             if d in self.defs.params:
                 return {'PARAM:' + d}
+            if isinstance(e, ast.Name):
+                import builtins
+                if hasattr(builtins, d):
+                    return {'CONST'}
+                if self.mod is not None:
+                    if d in self.mod.imports:
+                        return {'CONST'}      # an imported module / function / class object
+                    if d in self.mod.constants:
+                        try:
+                            consteval(self.mod.constants[d], self.repo, self.mod)
+                            return {'CONST'}
+                        except NotConst:
+                            pass
+                    if self.repo is not None and self.repo.resolve_name(self.mod, e):
+                        return {'CONST'}      # a function or class object of the package
             if isinstance(e, ast.Attribute):
                 if d.startswith('self.') and d.count('.') == 1:
                     return {self.self_attrs.get(e.attr, 'ATTR:' + d)}
